@@ -359,7 +359,7 @@ func init() {
 		Guards:      map[string]int64{"distinct:nontrivial": 300},
 		Run:         c20Run,
 		Replay: func(raw json.RawMessage) string {
-			return "graph witnesses are replayed by re-running the check family named in the witness"
+			return "NOT-REPLAYABLE: graph witnesses name the family and slot assignment; re-run `scripts/check.sh C20 quick`"
 		},
 	})
 }
